@@ -407,6 +407,7 @@ pub fn run(which: Which, tier: Tier) -> i32 {
     if which == Which::C18 {
         dot_layer(&mut rep);
         dot_grid_layer(&mut rep);
+        typed_prefix_layer(&mut rep);
     } else {
         namespace_layer(&mut rep);
     }
@@ -741,11 +742,76 @@ fn dot_grid_layer(rep: &mut Report) {
     rep.layer(l);
 }
 
+
+/// What is being typed may spell a keyword or the beginning of one (`use` on the way to `user`):
+/// every offered value name must still replace exactly the typed token.
+fn typed_prefix_cases() -> Vec<(String, String, usize, usize)> {
+    let mut prefixes: BTreeSet<String> = BTreeSet::new();
+    for k in crate::core::alphabet::KEYWORDS {
+        for i in 1..=k.len() {
+            prefixes.insert(k[..i].to_string());
+        }
+    }
+    for p in ["u", "us", "user", "n", "xy", "usex", "lets", "a1"] {
+        prefixes.insert(p.to_string());
+    }
+    let mut out = vec![];
+    for p in &prefixes {
+        for (cname, tpl) in [("statement", "{P}"), ("operand", "n + {P}"), ("argument", "main({P}, 1, 2)"), ("let value", "let a = {P} a"), ("list element", "[n, {P}]")] {
+            let body = tpl.replace("{P}", p);
+            let text = format!("pub fn main(n, user_name, used) {{ {body} }}\n");
+            let s = text.find(&body).unwrap() + tpl.find("{P}").unwrap();
+            out.push((format!("typed-prefix|{p}|{cname}"), text, s, s + p.len()));
+        }
+    }
+    out
+}
+
+fn eval_typed_prefix(text: &str, s: usize, e: usize) -> Vec<(String, String)> {
+    let (host, file) = ide::AnalysisHost::new_single_file(text);
+    let an = host.snapshot();
+    let mut out = vec![];
+    match catch(|| an.completions(FilePos::new(file, (e as u32).into()), None)) {
+        Ok(Ok(items)) => {
+            for it in items.unwrap_or_default().iter().filter(|i| i.kind != ide::CompletionItemKind::Keyword) {
+                let (rs, re) = (u32::from(it.source_range.start()) as usize, u32::from(it.source_range.end()) as usize);
+                if (rs, re) != (s, e) {
+                    out.push(("replace-range".to_string(), format!("item `{}` replaces {rs}..{re} ({:?}), the token being typed is {s}..{e} ({:?})", it.label, text.get(rs..re).unwrap_or("?"), &text[s..e])));
+                    break;
+                }
+            }
+        }
+        other => out.push(("completion-failed".to_string(), format!("{other:?}"))),
+    }
+    out
+}
+
+fn typed_prefix_layer(rep: &mut Report) {
+    let cases = typed_prefix_cases();
+    let mut l = Layer { name: "typed-prefixes".into(), exhaustive: true, ..Default::default() };
+    for (name, text, s, e) in &cases {
+        l.states += 1;
+        l.executions += 1;
+        l.transitions += 1;
+        for (class, detail) in eval_typed_prefix(text, *s, *e) {
+            let parts: Vec<&str> = name.split('|').collect();
+            let kw = crate::core::alphabet::KEYWORDS.contains(&parts[1]);
+            rep.violation(Violation { class, key: format!("typed-prefix|{}|{}", if kw { format!("keyword `{}`", parts[1]) } else { "not a keyword".to_string() }, parts[2]), witness: json!({"typed_prefix": name}), detail: format!("[{name}] {}: {detail}", text.trim()) });
+        }
+    }
+    l.bound = format!("{} completions: every non-empty prefix of the 15 keywords (the keywords themselves included) and 8 other spellings, typed as a statement, an operand, a call argument, a let value and a list element: every offered value name replaces exactly the typed token", cases.len());
+    rep.layer(l);
+}
+
 pub fn replay(which: Which, w: &Value) -> Vec<String> {
     if w.get("case").is_some() {
         let mut rep = Report::new("C18", Tier::Quick);
         dot_layer(&mut rep);
         return rep.violations.iter().filter(|v| Some(v.key.as_str()) == w["case"].as_str()).map(|v| v.detail.clone()).collect();
+    }
+    if let Some(name) = w["typed_prefix"].as_str() {
+        let Some((_, text, s, e)) = typed_prefix_cases().into_iter().find(|c| c.0 == name) else { return vec!["unknown typed-prefix case".into()] };
+        return eval_typed_prefix(&text, s, e).into_iter().map(|(c, d)| format!("{c}: {d}")).collect();
     }
     if let Some(name) = w["dot_case"].as_str() {
         let Some((_, mods, off, must, may)) = dot_grid_cases().into_iter().find(|c| c.0 == name) else { return vec!["unknown dot case".into()] };
